@@ -6,6 +6,7 @@ from sa.model import (AnalysisError, call_tail, const_str, dotted, kwarg, norm,
                       walk_local)
 from sa.pathrules import FnView, receiver
 from sa.setorder import _parents
+from sa import tables
 from rules import common as K
 
 # aggregates whose dependence on arrival order the property itself permits
@@ -113,8 +114,8 @@ def aggregate_order(chk, rid):
   m = repo.by_name('sqlite3_logica')
   reg = repo.func('sqlite3_logica.ExtendConnectionWithLogicaFunctions')
   aggs = []
-  for c in walk_local(reg.node):
-    if isinstance(c, ast.Call) and call_tail(c) == 'create_aggregate' and len(c.args) >= 3:
+  for c in tables.expand_calls(reg, ('create_aggregate',)):
+    if len(c.args) >= 3:
       aggs.append((const_str(c.args[0]), dotted(c.args[2]), c))
   if len(aggs) < 4:
     raise AnalysisError('create_aggregate registrations not recognised')
